@@ -5,7 +5,7 @@ import "fmt"
 func init() { generators["C03"] = genC03 }
 
 var credDefects = []string{"none", "wrongkey", "flipmi", "truncmi", "unknownuser", "nouser", "norealm", "nononce", "nomi",
-	"forgednonce", "mutnonce", "oldnonce", "othernonce", "wrongrealm"}
+	"forgednonce", "mutnonce", "oldnonce", "othernonce", "wrongrealm", "appendnonce"}
 
 // genC03: every method x credential defect x server state, both nonce implementations and
 // every HMAC truncation length (handler level), with the clock moved across the nonce hour.
